@@ -22,12 +22,12 @@ CONSTANTS
  Trtw = 1
  Trtp = 1
  Rows = {0, 1}
- Cols = {0, 1}
+ Cols = {0}
  NPh = 3
  MaxT = 6
  Salt = 0
  Bug = "none"
- MaskCodes = {0, 1, 2}
+ MaskCodes = {0, 1}
 INVARIANT EnvOk
 INVARIANT ReadsAgree
 INVARIANT MemAgree
